@@ -387,6 +387,10 @@ class Interp:
             return self.consts[name]
         if name in self.consts_ast:
             v, _, _ = self.eval(self.consts_ast[name]["expr"], {}, z3.BoolVal(True))
+            ty = self.consts_ast[name].get("ty", "").replace(" ", "")
+            if ty.startswith("[u8;") and isinstance(v, VVec):
+                # byte-array constant written as a list of integers
+                v = VStr(BStr([z3.Extract(7, 0, x.e) for x in v.items], bv(len(v.items))))
             self.consts[name] = v
             return v
         return None
@@ -683,17 +687,18 @@ class Interp:
             l, env, pc = self.eval(e["l"], env, pc)
             if not isinstance(l, VBool):
                 raise Unsupported("&& on non-bool")
-            # short circuit: the right side executes only under l (or !l); its panics are guarded
-            sub_pc = z3.And(pc, l.e) if op == "&&" else z3.And(pc, z3.Not(l.e))
+            # short circuit: the right side executes only under l (for &&) or !l (for ||); it may contain `?`/`return`
+            # and assignments, so it is merged like the branch of an `if`
+            take_right = l.e if op == "&&" else z3.Not(l.e)
+            sub_pc = z3.And(pc, take_right)
+            if z3.is_false(z3.simplify(sub_pc)):
+                return VBool(z3.BoolVal(op == "||") if False else (z3.BoolVal(False) if op == "&&" else z3.BoolVal(True))), env, pc
             r, env2, pc2 = self.eval(e["r"], env, sub_pc)
             if not isinstance(r, VBool):
                 raise Unsupported("&& on non-bool")
-            if env2 is not env and any(env2.get(n) is not env.get(n) for n in env):
-                raise Unsupported("assignment inside && operand")
-            # a `return`/`?` inside the right operand is not supported (pc2 must equal sub_pc)
-            if pc2 is not sub_pc and not z3.eq(z3.simplify(pc2), z3.simplify(sub_pc)):
-                raise Unsupported("control flow inside && operand: %s vs %s" % (z3.simplify(pc2), z3.simplify(sub_pc)))
-            return VBool(z3.And(l.e, r.e) if op == "&&" else z3.Or(l.e, r.e)), env, pc
+            skip_val = VBool(z3.BoolVal(False) if op == "&&" else z3.BoolVal(True))
+            v, out, pco = self.merge(z3.simplify(take_right), r, env2, pc2, skip_val, env, z3.And(pc, z3.Not(take_right)), env)
+            return v, out, pco
         if op in ("+=", "-=", "*=", "/=", "%=", "|=", "&=", "^=", "<<=", ">>="):
             sub = dict(e)
             sub["op"] = op[:-1]
@@ -931,8 +936,12 @@ class Interp:
     def e_cast(self, e, env, pc):
         v, env, pc = self.eval(e["expr"], env, pc)
         ty = e["ty"].replace(" ", "")
-        if isinstance(v, VInt) and ty in ("usize", "u64"):
+        if isinstance(v, VInt) and ty in ("usize", "u64", "i64", "isize"):
+            return v, env, pc  # same 64 bits (signed values are two's complement)
+        if isinstance(v, VChar) and ty in ("u8", "char"):
             return v, env, pc
+        if isinstance(v, VChar) and ty in ("usize", "u64", "u32"):
+            return VInt(z3.ZeroExt(56, v.e)), env, pc
         if isinstance(v, VInt) and ty == "u32":
             return VInt(z3.ZeroExt(32, z3.Extract(31, 0, v.e))), env, pc
         raise Unsupported("cast to " + ty)
@@ -2018,6 +2027,7 @@ METHODS = {
     ("VIter", "sum"): m_iter_sum,
     ("VBool", "clone"): m_ident,
     ("VStruct", "clone"): m_ident,
+    ("VStruct", "into"): m_ident,
 }
 
 def _min(I, a, pc):
